@@ -212,7 +212,7 @@ func enumerateFn(tier, only string, emit func(string)) {
 					for _, item := range its {
 						for _, b := range fullBounds(len(seq)) {
 							for _, key := range []bool{false, true} {
-								tests := []string{"", "eql", "lam"}
+								tests := []string{"", "equal", "lam"}
 								preds := []string{""}
 								if isIf {
 									tests = []string{""}
@@ -308,7 +308,7 @@ func enumerateFn(tier, only string, emit func(string)) {
 				for _, t := range typVariants(string(typ), seq) {
 					for _, b := range fullBounds(len(seq)) {
 						for _, key := range []bool{false, true} {
-							for _, test := range []string{"", "eql", "eqv"} {
+							for _, test := range []string{"", "equal", "eqv"} {
 								for _, fe := range []bool{false, true} {
 									c := &call{fn: fn, typs: string(t), seqs: []string{seq}, key: key, test: test, fromEnd: fe}
 									c.setBounds(b)
@@ -338,7 +338,7 @@ func enumerateFn(tier, only string, emit func(string)) {
 						continue
 					}
 					for _, item := range "abc" {
-						for _, test := range []string{"", "eql", "lam"} {
+						for _, test := range []string{"", "equal", "lam"} {
 							out(&call{fn: fn, typs: string(t), seqs: []string{seq}, key: key, test: test, item: string(item)})
 						}
 					}
@@ -379,7 +379,7 @@ func enumerateFn(tier, only string, emit func(string)) {
 										continue
 									}
 									for _, key := range []bool{false, true} {
-										for _, test := range []string{"", "eql", "lam"} {
+										for _, test := range []string{"", "equal", "lam"} {
 											for _, fe := range []bool{false, true} {
 												c := &call{fn: fn, typs: string(t1) + string(t2), seqs: []string{s1, s2}, key: key, test: test, fromEnd: fe}
 												c.setBounds(b1)
@@ -493,7 +493,7 @@ func enumerateFn(tier, only string, emit func(string)) {
 				for _, t1 := range typVariants("L", s1) {
 					for _, t2 := range typVariants("L", s2) {
 						for _, key := range []bool{false, true} {
-							tests := []string{"", "eql", "eqv"}
+							tests := []string{"", "equal", "eqv"}
 							switch fn {
 							case "set-difference", "nset-difference", "subsetp":
 								tests = append(tests, "lam")
